@@ -177,7 +177,7 @@ def title_term(t):
     return f'(Some (mkTitle {int(t.number)} {ct.boolean(bool(t.is_evaluation))} {fields}))'
 
 
-def observe_file(path, suffix, notitle, table_mod=None, results_mod=None):
+def observe_file(path, suffix, notitle, table_mod=None, results_mod=None, nolabel=False):
     """Run the real classes on a file; returns the Gallina term of type ofile and some info."""
     if table_mod is None:
         import pharmpy.model.external.nonmem.table as table_mod
@@ -185,7 +185,7 @@ def observe_file(path, suffix, notitle, table_mod=None, results_mod=None):
         import pharmpy.tools.external.nonmem.results as results_mod
     info = {'errors': []}
     try:
-        tf = table_mod.NONMEMTableFile(path, notitle=notitle, nolabel=notitle)
+        tf = table_mod.NONMEMTableFile(path, notitle=notitle, nolabel=nolabel)
     except Exception as e:  # noqa
         info['errors'].append(type(e).__name__)
         return f'(OErr {errclass(e)})', info
@@ -248,7 +248,9 @@ def fcase_term(ctx, spec, k, table_mod=None, results_mod=None, perturb=None):
     path = d / f"f{k}{spec['suffix'] or '.tab'}"
     with open(path, 'w', newline='') as fh:
         fh.write(text)
-    obs, info = observe_file(path, spec['suffix'], bool(spec.get('notitle')), table_mod, results_mod)
+    # results._parse_tables: notitle = NOTITLE or NOHEADER, nolabel = NOLABEL or NOHEADER
+    nolabel = spec.get('raw') is None and any(not t.get('showlabels', True) for t in spec['tables'])
+    obs, info = observe_file(path, spec['suffix'], bool(spec.get('notitle')), table_mod, results_mod, nolabel=nolabel)
     if perturb:
         obs = perturb(obs)
     written = 'None' if spec.get('raw') is not None else '(Some ' + ct.lst([wtable_term(t) for t in spec['tables']]) + ')'
